@@ -30,6 +30,7 @@ func runC16(c *Ctx) {
 	c16R3(c, "C16.R3")
 	c16R4(c, "C16.R4")
 	c16R5(c, "C16.R5")
+	c16R6(c, "C16.R6")
 }
 
 // isValveCall: invoke of Valve.<method> on the switchboard's valve
